@@ -135,6 +135,41 @@ Proof.
   - apply existsb_exists in Hv as (s' & Hin & Hp). eapply find_none in F; [|exact Hin]. simpl in F. congruence.
 Qed.
 
+(* the same for strictly decreasing methods: "monotone" in the property text covers both directions *)
+Fixpoint continuous_decreasing (segs : list lseg) : Prop :=
+  match segs with
+  | s0 :: ((s1 :: _) as rest) =>
+    num s1 < 0 /\
+    (exists x, lim_usable (shi s0) = Some x /\ lim_usable (slo s1) = Some x /\ seg_i2p s0 x = seg_i2p s1 x) /\
+    continuous_decreasing rest
+  | _ => True
+  end.
+
+Lemma invertible_from_ok_neg segs : forall ref,
+  ref < 0 -> continuous_decreasing segs -> invertible_from ref segs = true.
+Proof.
+  induction segs as [|s0 segs IH]; intros ref Href H; [reflexivity|].
+  destruct segs as [|s1 rest]; [reflexivity|].
+  destruct H as (Hn & (x & E1 & E2 & E3) & Hrest).
+  cbn [invertible_from]. replace (ref * num s1 <? 0) with false by nia.
+  rewrite E1, E2, Z.eqb_refl, E3, Z.eqb_refl. cbn [negb].
+  replace (num s1 =? 0) with false by lia. apply IH; assumption.
+Qed.
+
+Lemma scale_linear_encodes_decreasing s segs y :
+  num s < 0 -> continuous_decreasing (s :: segs) ->
+  valid_phys (MScaleLinear (s :: segs)) (CInt y) = true ->
+  exists x, p2i (MScaleLinear (s :: segs)) (CInt y) = COk (CInt x).
+Proof.
+  intros Hs Hc Hv. cbn [p2i].
+  assert (Hi : invertible (s :: segs) = true) by (unfold invertible; now apply invertible_from_ok_neg).
+  rewrite Hi. cbn [negb].
+  cbn [valid_phys] in Hv. unfold first_seg.
+  destruct (find (fun s0 => phys_applies s0 y) (s :: segs)) as [s'|] eqn:F.
+  - eexists. reflexivity.
+  - apply existsb_exists in Hv as (s' & Hin & Hp). eapply find_none in F; [|exact Hin]. simpl in F. congruence.
+Qed.
+
 (* ---------- TAB-INTP: every value between the smallest and the largest sample
    point lies in some segment (discrete intermediate value theorem), so valid
    values always convert ---------- *)
